@@ -4,8 +4,8 @@ SPEC = dict(
     id="C28", level="proof",
     lean_targets=["SwayVerif.Props.C28"], audit="SwayVerif/Audit/C28.lean",
     theorems=["read_after_write", "write_frame", "write_frame_other_slots", "storage_vec_refines_list", "storage_vec_init",
-              "storage_map_refines_fun", "storage_slice_refines_bytes", "op_footprints", "fields_noninterference"],
-    steps=[dict(bin="sv_c28", area="c28", n_quick=240, n_thorough=2400, corpus="corpus/c28.txt",
+              "storage_map_refines_fun", "storage_slice_refines_bytes", "op_footprints", "fields_noninterference", "C28_vec_history_partial"],
+    steps=[dict(bin="sv_c28", area="c28", n_quick=240, n_thorough=1440, corpus="corpus/c28.txt",
                 dist_keys=("reverted", "spaced", "fieldsTouched", "opkinds"), timeout=3000,
                 nontrivial=lambda case, impl, kv: int(kv.get("nops", "0")) >= 5)],
     rule="one contract with 9 collection fields (StorageVec<u64> x2 — one in a namespace, StorageVec<(u64,u64,u64)> whose "
@@ -40,8 +40,9 @@ MANIFEST = dict(
               "correspondence against the real std library on the real FuelVM with random multi-field histories",
     text="proof (partial by hash hypotheses): read_after_write, write_frame, write_frame_other_slots for ALL stores/offsets/sizes; "
          "storage_vec_refines_list (len/get/push/pop/set/remove/insert/swap/swap_remove/clear incl. reverts) for all lists and "
-         "element widths; storage_map_refines_fun; storage_slice_refines_bytes; op_footprints + fields_noninterference. "
-         "Whole-history composition over several fields is checked by the correspondence run, not proved.",
+         "element widths; storage_map_refines_fun; storage_slice_refines_bytes; op_footprints + fields_noninterference; C28_vec_history_partial (whole histories on one "
+         "vector field: runSlot satisfies histProp). "
+         "Whole-history composition over SEVERAL fields is checked by the correspondence run, not proved.",
     note="trusted: Lean kernel + propext/Classical.choice/Quot.sound; hand transliteration of the .sw sources (tied per run); "
          "sha2 crate; FuelVM. Hypotheses about SHA-256 (spacing/injectivity) are explicit and evaluated concretely per history.",
 )
